@@ -222,7 +222,9 @@ def isSignedDecimal (s : Bytes) : Bool :=
   | _ => isDecimal s
 
 def parseOut (line : Bytes) : OutMsg :=
-  if line.contains 10 || line.contains 13 || line.contains 0 then .invalid "control byte inside a line"
+  -- a lone CR inside a relayed trailing text is the service's own byte (C05: verbatim) and does not
+  -- end a line for the server's reader; LF and NUL cannot be part of one message
+  if line.contains 10 || line.contains 0 then .invalid "line feed or NUL inside a line"
   else
     let toks := tokens 16 line
     match toks with
